@@ -195,7 +195,9 @@ def build_form_cases(ctx, per_cell):
         return ac.pick_value(rng, kind)
 
     for op in ac.BINSYM:
-        pairs = [p for p in ac.admitted_pairs(op) if "e" not in p]
+        # enumerator operands included: an item enumerator is an int at run time for every
+        # operator (/repo 2ca194c; before, < <= > >= % == != aborted in front/emit.c)
+        pairs = ac.admitted_pairs(op)
         boost = 6 if op in ("and", "or") else 1
         for (ka, kb) in pairs:
             for side in (0, 1):
@@ -219,6 +221,25 @@ def build_form_cases(ctx, per_cell):
                     for k in range(max(1, per_cell // 2) * boost):
                         a = ac.atom(ac.value_tree(ka, val(ka, True)))
                         add(("B", op, a, a), (first, "same"))
+    # an enumerator operand in parentheses / chosen by ?: next to a NON-constant operand: the
+    # enumerator must still be an int for the emitter (/repo 053e24b: expr_sup_constred used to
+    # put the enum type back, `(E::k0) >= x` died in front/emit.c)
+    for op in ac.BINSYM:
+        if ("e", "i") not in ac.admitted_pairs(op):
+            continue
+        for shape in ("paren", "paren2", "cond"):
+            for side in (0, 1):
+                for other in ("var", "call"):
+                    v = val("e", True)
+                    w = rng.choice([x for x in ac.ENUM_CORNERS if x != v])
+                    leaf = ("L", "e", v)
+                    en = {"paren": ("P", leaf), "paren2": ("P", ("P", leaf)),
+                          "cond": ("P", ("C", ("L", "b", rng.randrange(2)), leaf, ("L", "e", w)))}[shape]
+                    o = ("L", "i", rng.choice([0, 1, 2, 31]) if op in ("shl", "shr") and side == 0
+                         else rng.choice([1, 2, 3, 7, -1, -5, 100]))
+                    forms = [other, other]
+                    forms[side] = "lit"
+                    add(("B", op, en, o) if side == 0 else ("B", op, o, en), forms)
     # ?: : literal condition with effectful branches, effectful condition with literal branches
     shapes = [("lit", "call", "call"), ("lit", "fault", "call"), ("lit", "call", "fault"),
               ("call", "lit", "lit"), ("fault", "lit", "lit"), ("call", "lit", "call"),
@@ -739,7 +760,11 @@ def run(ctx):
         if same:
             counts["leg3-agree"] += 1
             continue
-        if lit[1][0] == "crash":
+        if ("crash", "emit") in (lit[1], var[1]):
+            k2, what = ("emit-abort:%s" % key,
+                        "accepted by the typechecker, but the %s version kills the compiler at assert(0) in front/emit.c "
+                        "(no opcode for the operand types)" % ("literal" if lit[1] == ("crash", "emit") else "variable"))
+        elif lit[1][0] == "crash":
             k2, what = "constred-crash:%s:%s" % (key, fname), "the compiler crashes (%s)" % lit[1][1]
         elif lit[1] == ("compile_error", "division by zero"):
             k2, what = ("div0-rejected-but-not-evaluated:%s:%s" % (key.split(":")[0], fname),
